@@ -55,7 +55,7 @@ class C12(Prop):
             "one case = one scaffold with a batch of queries. exhaustive: every row-kind word over {F,G} of "
             "length<=3 (quick; +length 4 over lengths {1,2}) / <=5 (thorough) x row lengths in {1,2,3} x every "
             "query 1<=a<=b<=total+2; random: 1-40 rows, lengths up to 10^6, queries around every row boundary "
-            "and beyond the end. evaluations counts scaffolds; coverage.queries counts (scaffold,query) pairs. "
+            "and beyond the end; a third of them also as a scaffold with a history (indexed and queried with its first rows only, grown by add_row / append_scaffold, indexed again). evaluations counts scaffolds; coverage.queries counts (scaffold,query) pairs. "
             "non-trivial = distinct scaffold whose batch contains both a hit and a miss or a gap-only query"
         )
 
@@ -94,11 +94,33 @@ class C12(Prop):
                     a, b = b, a
                 qs.append([a, b])
             yield {"gen": f"random/n={n}", "rows": rows, "queries": qs}
+            if n >= 2 and i % 3 == 0:
+                # a scaffold with a history: indexed and queried when it had only its first k rows, then
+                # grown (add_row / append_scaffold) and indexed again -- the second index must describe
+                # the scaffold as it is now
+                yield {"gen": "grown-scaffold", "rows": rows, "queries": qs, "grow_from": rng.randint(1, n - 1),
+                       "how": rng.choice(["add_row", "append_scaffold"])}
 
     def run_impl(self, case):
         objs = [A.row_to_obj(r) for r in case["rows"]]
         pos = {id(o): k for k, o in enumerate(objs) if isinstance(o, Fragment)}
-        ia = IndexedAssembly("asm", scaffolds=[Scaffold("scf", objs)])
+        if case.get("grow_from") is not None:
+            k0 = case["grow_from"]
+            sc = Scaffold("scf", objs[:k0])
+            first = IndexedAssembly("asm0", scaffolds=[sc])
+            for a, b in case["queries"][:5]:
+                try:
+                    first.find_overlaps(Fragment("scf", a, b, 1))
+                except Exception:
+                    pass
+            if case["how"] == "add_row":
+                for o in objs[k0:]:
+                    sc.add_row(o)
+            else:
+                sc.append_scaffold(Scaffold("more", objs[k0:]))
+            ia = IndexedAssembly("asm", scaffolds=[sc])
+        else:
+            ia = IndexedAssembly("asm", scaffolds=[Scaffold("scf", objs)])
         out = []
         for a, b in case["queries"]:
             try:
